@@ -9,6 +9,7 @@ import (
 	"net"
 	"sort"
 	"strings"
+	"sync/atomic"
 	"time"
 
 	"google.golang.org/grpc"
@@ -63,6 +64,7 @@ type wscript struct {
 	emsg       string
 	ekind      int  // how the handler builds the error it returns: 0 status error, 1 status error wrapped with %w, 2 plain Go error
 	mutate     bool // the sender scribbles over a message right after sending it
+	ownReader  bool // bidi, server returns: the handler reads in a goroutine of its own, the client never half-closes
 	unknown    bool // unary: request and response carry a field this build does not know
 	prevHop    bool // the caller is itself a handler: its context carries the incoming metadata of the previous hop
 	outMD      bool // the caller sends outgoing metadata
@@ -93,7 +95,7 @@ func (s wscript) String() string {
 		}
 	}
 	term := []string{"return-ok", fmt.Sprintf("return(%s,%q,%s)", s.code, s.emsg, []string{"status", "wrapped-status", "plain-error"}[s.ekind]), "client-cancel", "deadline"}[s.term]
-	return fmt.Sprintf("%s [%s] %s mutate=%v late-handler=%v md-reuse=%v pre-done=%v late-cancel=%v third-party=%v nil-on-done=%v prev-hop=%v out-md=%v unknown-fields=%v", []string{"unary", "sstream", "cstream", "bidi"}[s.shape], strings.Join(p, " "), term, s.mutate, s.late, s.mdReuse, s.preDone, s.lateCancel, s.thirdParty, s.nilOnDone, s.prevHop, s.outMD, s.unknown)
+	return fmt.Sprintf("%s [%s] %s mutate=%v late-handler=%v md-reuse=%v pre-done=%v late-cancel=%v third-party=%v nil-on-done=%v prev-hop=%v out-md=%v unknown-fields=%v own-reader=%v", []string{"unary", "sstream", "cstream", "bidi"}[s.shape], strings.Join(p, " "), term, s.mutate, s.late, s.mdReuse, s.preDone, s.lateCancel, s.thirdParty, s.nilOnDone, s.prevHop, s.outMD, s.unknown, s.ownReader)
 }
 
 func genWrapScript(t *Tape) wscript {
@@ -134,12 +136,21 @@ func genWrapScript(t *Tape) wscript {
 		}
 		s.rounds = append(s.rounds, r)
 	}
+	if s.shape == 3 && (s.term == tReturnOK || s.term == tReturnErr) && t.Flag(1, 3) {
+		own := true
+		for _, r := range s.rounds {
+			if r.kind == rC2S || r.kind == rHalfClose {
+				own = false
+			}
+		}
+		s.ownReader = own
+	}
 	// cancel / deadline need a server->client synchronisation as the last exchange, so that the server has consumed
 	// everything the client sent ("the party that cancels does so after having received exactly j messages")
 	if (s.term == tReturnOK || s.term == tReturnErr) && (s.shape == 1 || s.shape == 3) && t.Flag(1, 5) {
 		// (not for client-streaming calls: their response is a send that only meets its receiver in CloseAndRecv, so a
 		// handler that is to finish before the client looks would rely on transport buffering - outside the statement)
-		s.lateCancel = true
+		s.lateCancel = !s.ownReader
 	}
 	if (s.term == tCancel || s.term == tDeadline) && t.Flag(1, 6) {
 		// the call is made with a context that is already done: whatever the script says, the client must see the call
@@ -221,7 +232,8 @@ func errClass(err error) string {
 // ---- the scripted server ------------------------------------------------------------------------------------------------
 
 type scriptServer struct {
-	noSelfCancel bool // the unary call is cancelled by a third party instead of by the handler
+	readerStarted, readerDone, returned atomic.Bool // ownReader scripts
+	noSelfCancel                        bool        // the unary call is cancelled by a third party instead of by the handler
 	testproto.UnimplementedTestApiServer
 	s            wscript
 	yield        func(op string) // scheduling point (no-op on the reference transport)
@@ -376,6 +388,20 @@ func (sv *scriptServer) ClientStream(st grpc.ClientStreamingServer[testproto.Cli
 
 func (sv *scriptServer) BidiStream(st grpc.BidiStreamingServer[testproto.BidiStreamRequest, testproto.BidiStreamResponse]) error {
 	defer sv.enter()()
+	if sv.s.ownReader {
+		// the usual shape of a bidi handler: a goroutine of its own reads what the client sends; when the handler returns
+		// that read is released (the call is over), whatever the client does or does not do afterwards
+		sv.readerStarted.Store(true)
+		go func() {
+			for {
+				if _, err := st.Recv(); err != nil {
+					break
+				}
+			}
+			sv.readerDone.Store(true)
+		}()
+		defer sv.returned.Store(true)
+	}
 	return sv.run(st, st.Context(), func() (string, error) {
 		m, err := st.Recv()
 		if err != nil {
@@ -392,9 +418,17 @@ func (sv *scriptServer) BidiStream(st grpc.BidiStreamingServer[testproto.BidiStr
 	})
 }
 
+// probe reports a handler that has returned while the reading goroutine it started is still blocked.
+func (sv *scriptServer) probe() string {
+	if sv.readerStarted.Load() && sv.returned.Load() && !sv.readerDone.Load() {
+		return "the handler has returned, the goroutine it had reading from the stream is still blocked in Recv"
+	}
+	return ""
+}
+
 // ---- the scripted client ----------------------------------------------------------------------------------------------------
 
-func runWrapClient(s wscript, client testproto.TestApiClient, yield func(string), quiesce func(), tr *transcript, setCancel func(context.CancelFunc), release chan struct{}) {
+func runWrapClient(s wscript, client testproto.TestApiClient, yield func(string), quiesce func(), tr *transcript, setCancel func(context.CancelFunc), release chan struct{}, probe func() string) {
 	defer close(release)
 	base := context.Background()
 	if s.prevHop {
@@ -405,6 +439,15 @@ func runWrapClient(s wscript, client testproto.TestApiClient, yield func(string)
 	}
 	ctx, cancel := context.WithCancel(base)
 	defer cancel()
+	if s.ownReader {
+		// (runs before the deferred cancel: the call is over, the caller's context is not)
+		defer func() {
+			quiesce()
+			if p := probe(); p != "" {
+				tr.client = append(tr.client, p)
+			}
+		}()
+	}
 	if s.term == tDeadline {
 		var c2 context.CancelFunc
 		if s.preDone {
@@ -613,7 +656,7 @@ func runWrapClient(s wscript, client testproto.TestApiClient, yield func(string)
 			obs("closeandrecv -> %q", m)
 		}
 	default:
-		if closeSend != nil && !halfClosed && s.term != tCancel {
+		if closeSend != nil && !halfClosed && s.term != tCancel && !s.ownReader {
 			_ = closeSend()
 		}
 		m, err := recv()
@@ -655,7 +698,7 @@ func runReference(s wscript) transcript {
 		tr.client = append(tr.client, "dial error: "+err.Error())
 		return tr
 	}
-	runWrapClient(s, testproto.NewTestApiClient(conn), func(string) {}, func() { time.Sleep(time.Second) }, &tr, func(c context.CancelFunc) { cancelClient = c }, sv.release)
+	runWrapClient(s, testproto.NewTestApiClient(conn), func(string) {}, func() { time.Sleep(time.Second) }, &tr, func(c context.CancelFunc) { cancelClient = c }, sv.release, sv.probe)
 	_ = conn.Close()
 	gs.Stop()
 	<-done
@@ -709,7 +752,7 @@ func wrapRun(w *World) {
 	conn := wrap.ServerToClient(testproto.TestApi_ServiceDesc, sv)
 	client := testproto.NewTestApiClient(conn)
 	w.Go("cli", false, func(t *Task) {
-		runWrapClient(s, client, func(op string) { t.Yield(op) }, func() { t.Settle("quiesce") }, &tr, func(c context.CancelFunc) { cancelClient = c }, sv.release)
+		runWrapClient(s, client, func(op string) { t.Yield(op) }, func() { t.Settle("quiesce") }, &tr, func(c context.CancelFunc) { cancelClient = c }, sv.release, sv.probe)
 	})
 	if s.term == tDeadline {
 		w.IdleAdvance, w.IdleAdvanceN = 4*time.Second, 3
